@@ -10,7 +10,9 @@ where *kind* is ``subroutine`` | ``function`` | ``module``.  The text is valid f
   the interface routine), the ``implicit none`` / ``use`` lines; at the very start and end of the
   part; runs of several pragmas; a comment between a pragma and the following declaration;
 * executable part: before / after counted loops, ``do while``, calls, assignments, if / else-if,
-  select case, where, associate, forall; first / last item of every nested body; runs of pragmas;
+  select case, select type (``type is`` / ``class is`` / ``class default`` branches on a polymorphic dummy argument
+  ``class(t_base) :: obj`` of a small locally defined type with one extension; the frontend does not read
+  ``class(*)`` declarations), where, associate, forall; first / last item of every nested body; runs of pragmas;
 * region pragmas ``!$kw marker`` ... ``!$kw end marker`` planted around a slice of one body (same
   depth: nested, crossing, repeated markers, mismatching keyword or marker) and *stray* start / end
   pragmas dropped anywhere (ending a region at another depth, unmatched starts and ends);
@@ -49,6 +51,8 @@ class _G:
         self.calls = [t for t in CALLS if ok(t)]
         self.nreg = 0
         self.nname = 0
+        self.nseltype = 0
+        self.narrowed = 0         # >0 while inside a TYPE IS branch that makes ``obj`` itself non-polymorphic
 
     # ---- pragmas ----------------------------------------------------------
     def plain_pragma(self):
@@ -127,6 +131,27 @@ class _G:
             items = self.plant_regions(items)
         return items
 
+    def seltype(self, depth):
+        """SELECT TYPE on the polymorphic dummy ``obj``; branch bodies are ordinary pragma-dense bodies"""
+        d = self.draw
+        self.nseltype += 1
+        guards = ['type is (t_base)', 'class is (t_ext)', 'type is (t_ext)', 'class is (t_base)']
+        first = d(st.integers(0, len(guards) - 1))
+        guards = (guards[first:] + guards[:first])[:d(st.integers(1, 3))]
+        selector = d(st.sampled_from(['obj', 'obj', 'zo => obj']))
+        cases = []
+        for gd in guards:
+            narrow = selector == 'obj' and gd.startswith('type is')
+            self.narrowed += narrow
+            cases.append([gd, self.body(depth + 1, 1, 2)])
+            self.narrowed -= narrow
+        dflt = self.body(depth + 1, 1, 2) if d(st.booleans()) else None
+        name = None
+        if d(st.integers(0, 7)) == 0:
+            self.nname += 1
+            name = f'st{self.nname}'
+        return ['seltype', selector, cases, dflt, name]
+
     def stmt(self, depth):
         d = self.draw
         kinds = ['assign', 'assign', 'call', 'call', 'call', 'comment', 'ifline', 'print']
@@ -134,6 +159,8 @@ class _G:
             kinds += ['loop', 'loop', 'loop', 'loop', 'loop', 'while', 'while', 'if', 'if', 'select', 'where', 'forall']
             if self.flags['associate']:
                 kinds.append('associate')
+            if self.flags.get('seltype') and not self.narrowed:
+                kinds += ['seltype', 'seltype']
         k = d(st.sampled_from(kinds))
         if k == 'assign':
             return ['assign', d(st.sampled_from(self.assigns))]
@@ -163,6 +190,8 @@ class _G:
             cases = [[sel, self.body(depth + 1, 1, 2)] for sel in ['1', '2, 3', '4:6'][:d(st.integers(1, 3))]]
             dflt = self.body(depth + 1, 1, 2) if d(st.booleans()) else None
             return ['select', cases, dflt]
+        if k == 'seltype':
+            return self.seltype(depth)
         if k == 'where':
             def wbody():
                 out = []
@@ -239,6 +268,17 @@ def render_items(items, ind, L, out):
                 out.append(f'{p}{_kw("case default", up)}')
                 render_items(it[2], ind + step, L, out)
             out.append(f'{p}{_kw("end select", up)}')
+        elif k == 'seltype':
+            name = f'{it[4]}: ' if it[4] else ''
+            out.append(f'{p}{name}{_kw("select type", up)} ({it[1]})')
+            for guard, body in it[2]:
+                head, _, rest = guard.partition(' (')
+                out.append(f'{p}{_kw(head, up)} ({rest}')
+                render_items(body, ind + step, L, out)
+            if it[3] is not None:
+                out.append(f'{p}{_kw("class default", up)}')
+                render_items(it[3], ind + step, L, out)
+            out.append(f'{p}{_kw("end select", up)}' + (f' {it[4]}' if it[4] else ''))
         elif k == 'where':
             for n, (cond, body) in enumerate(it[1]):
                 out.append(f'{p}{_kw("where" if n == 0 else "elsewhere", up)} ({cond})')
@@ -287,6 +327,13 @@ def _spec(g, unit):
             items += gap()
         items.append(['decl', 'logical, intent(in) :: flag'])
         items += gap()
+        if g.flags.get('seltype'):
+            items += [['decl', 'type t_base'], ['decl', '  integer :: tag'], ['decl', 'end type t_base']]
+            items += gap(0.3)
+            items += [['decl', 'type, extends(t_base) :: t_ext'], ['decl', '  real(kind=8) :: w'], ['decl', 'end type t_ext']]
+            items += gap()
+            items.append(['decl', 'class(t_base), intent(in) :: obj'])
+            items += gap()
     else:
         items.append(['decl', 'integer, parameter :: n = 8, m = 4'])
         items += gap()
@@ -335,12 +382,15 @@ def _spec(g, unit):
 
 @st.composite
 def unit_source(draw, units=('subroutine', 'subroutine', 'subroutine', 'function', 'module'),
-                allow_typedef=True, allow_associate=True, allow_bare_end=True):
+                allow_typedef=True, allow_associate=True, allow_bare_end=True, allow_select_type=True):
     """``allow_*=False`` switches a construct off (exclusion by construction of listed findings)"""
     flags = {'typedef': allow_typedef and draw(st.integers(0, 2)) == 0, 'carr': draw(st.booleans()),
              'associate': allow_associate, 'bare_end': allow_bare_end}
     g = _G(draw, flags)
     unit = draw(st.sampled_from(units))
+    # SELECT TYPE needs a polymorphic object: an extra polymorphic dummy argument of the routine
+    flags['seltype'] = allow_select_type and unit != 'module' and draw(st.integers(0, 9)) < 4
+    obj = ', obj' if flags['seltype'] else ''
     L = {'upper': draw(st.integers(0, 3)) == 0, 'indent': draw(st.sampled_from([2, 2, 4])),
          'indent_pragmas': draw(st.integers(0, 3)) > 0}
     out = []
@@ -355,15 +405,18 @@ def unit_source(draw, units=('subroutine', 'subroutine', 'subroutine', 'function
         out.append(f'end module {name}')
     else:
         if unit == 'subroutine':
-            out.append(f'subroutine {name}(n, m, a, b, {"c, " if flags["carr"] else ""}flag)')
+            out.append(f'subroutine {name}(n, m, a, b, {"c, " if flags["carr"] else ""}flag{obj})')
         else:
-            out.append(f'function {name}(n, m, a, b, {"c, " if flags["carr"] else ""}flag) result(res)')
+            out.append(f'function {name}(n, m, a, b, {"c, " if flags["carr"] else ""}flag{obj}) result(res)')
         spec = _spec(g, unit)
         if unit == 'function':
             spec.append(['decl', 'real(kind=8) :: res'])
         render_items(spec, 2, L, out)
         body = [['assign', 'k = 0'], ['assign', 'x = 0.0d0'], ['assign', 'y = 1.0d0']] if draw(st.booleans()) else []
         body += g.body(0, 1, 4)
+        if flags['seltype'] and not g.nseltype:
+            # the argument is there: make sure that the construct is, too (at a drawn top-level position)
+            body.insert(draw(st.integers(0, len(body))), g.seltype(0))
         if unit == 'function':
             body.append(['assign', 'res = x'])
             body += g.pragma_run(0.3)
@@ -372,4 +425,5 @@ def unit_source(draw, units=('subroutine', 'subroutine', 'subroutine', 'function
             out.append('contains')
             out += ['  ' + ln for ln in member]
         out.append(f'end {unit} {name}')
-    return {'unit': unit, 'name': name, 'src': '\n'.join(out) + '\n', 'typedef': flags['typedef']}
+    return {'unit': unit, 'name': name, 'src': '\n'.join(out) + '\n', 'typedef': flags['typedef'] or flags['seltype'],
+            'select_type': g.nseltype}
